@@ -10,7 +10,7 @@ def items(tier):
     for p, strat, tags in corpus.entries(tier):
         alpha = "utf8" if corpus.uses_anychar(p) else ""
         apis = ["Match"]
-        for L in range(0, maxL + 1):
+        for L in corpus.lengths(tags, tier, maxL):
             for api in apis:
                 out.append({"id": "C01|%s|%s|L%d|%s" % (p, api, L, alpha or "full"), "Harness": "C01", "Pattern": p, "API": api, "L": L, "Alpha": alpha,
                             "strategy": strat, "reach": ["match", "nomatch"] if L == maxL else None})
